@@ -469,6 +469,35 @@ def rule_domain_presence(db: ProgramDB) -> List[Instance]:
                         f"`{unparse(uses[0] if not isinstance(uses[0], (ast.If, ast.While)) else uses[0].test)[:70]}` tests the user's domain object for truth: "
                         f"an empty collection or a falsy single object given as the domain counts as 'no domain', and the variable "
                         f"ranges over every instance ever constructed instead", line=getattr(uses[0], "lineno", f.lineno) if uses else f.lineno))
+    # Variable._evaluate__ decides 'a domain was given' by the truthiness of the wrapper, and the wrapper is truthy when it has memoised
+    # values OR holds a source - the (possibly exhausted) source is the only witness of a supplied domain none of whose members
+    # was kept.  The source is therefore written by the constructor / the setter only; releasing or replacing it anywhere else
+    # turns such a domain into 'no domain' once it has been enumerated.
+    hi = db.cls("HashedIterable")
+    bm = hi.methods.get("__bool__")
+    reads_source = bm is not None and any(isinstance(x, ast.Attribute) and x.attr == "iterable" for x in own_nodes(bm.node))
+    if reads_source:
+        writers = []
+        for f in db.all_functions():
+            for a in own_nodes(f.node):
+                tgts = a.targets if isinstance(a, ast.Assign) else ([a.target] if isinstance(a, (ast.AugAssign, ast.AnnAssign)) else
+                                                                     (a.targets if isinstance(a, ast.Delete) else []))
+                for t in tgts:
+                    if isinstance(t, ast.Attribute) and t.attr == "iterable" and (f.cls is hi or "domain" in unparse(t.value).lower()):
+                        writers.append((f, a))
+        allowed = {"__post_init__", "set_iterable", "__init__"}
+        bad = [(f, a) for f, a in writers if not (f.cls is hi and f.name in allowed)]
+        for f, a in bad:
+            out.append(inst("DOMAIN-PRESENCE", VIOLATION, f, f"{f.short}[writes the source of the domain wrapper]",
+                            f"`{unparse(a)[:60]}` replaces the source of a domain outside its constructor / setter: a supplied domain none of whose members is an "
+                            f"instance of the variable's type has no memoised value, only its (exhausted) source says that a domain was given - without "
+                            f"it the next enumeration of the variable takes 'no domain given' and ranges over every instance ever constructed", line=a.lineno))
+        if not bad:
+            out.append(inst("DOMAIN-PRESENCE", HOLDS, hi.methods.get("set_iterable") or bm, "HashedIterable[the source is written by the constructor / setter only]",
+                            f"{len(writers)} writer(s) of `iterable`, all in {sorted(allowed)}"))
+    else:
+        out.append(inst("DOMAIN-PRESENCE", INFO, hi, "HashedIterable[the source is written by the constructor / setter only]",
+                        "the truthiness of the wrapper does not read the source"))
     return out
 
 
@@ -505,4 +534,49 @@ def rule_predicate_args(db: ProgramDB) -> List[Instance]:
                          f"positionally for a parameter that has a default (older_than(p, 3) for def older_than(p, limit=0)) is dropped, "
                          f"and the predicate runs with the default" if bad is not None else
                          "the names positional arguments are zipped with do not come from the function's signature"), line=z.lineno))
+    return out
+
+
+# ---------------------------------------------------------------------------------- DECL-FILTER (who may build a variable over a supplied domain)
+DOMAIN_BUILDERS = {
+    "extract_selected_variable_and_expression": "the constructor path of @symbol classes: filters the supplied domain by the runtime class (decided by the instances above)",
+    "Variable._from_domain_": "internal helper, the class is taken from the first element unless given; not reachable from the declaration API",
+    "Literal.__init__": "a literal ranges over exactly the one value it wraps",
+}
+
+
+def rule_domain_builders(db: ProgramDB) -> List[Instance]:
+    """A variable declared with a type and a domain ranges only over the members of the domain that are instances of the type.
+    The filter lives in one place - the constructor path of the decorated class.  Any other place that hands a domain to
+    a Variable directly builds a variable that ranges over whatever the domain holds."""
+    out = []
+    var_cls = db.cls("Variable")
+    n = 0
+    for fn in db.all_functions():
+        for c in own_calls(fn):
+            t = resolve_call_target(db, fn, c)
+            is_super_init = isinstance(c.func, ast.Attribute) and c.func.attr == "__init__" and isinstance(c.func.value, ast.Call) \
+                and dotted(c.func.value.func) == "super" and fn.cls is not None and fn.cls.is_subclass_of(var_cls)
+            if not ((isinstance(t, ClassInfo) and t.is_subclass_of(var_cls)) or is_super_init):
+                continue
+            kw = next((k for k in c.keywords if k.arg == "_domain_source_"), None)
+            if kw is None:
+                continue
+            n += 1
+            why = DOMAIN_BUILDERS.get(fn.short)
+            if why is not None:
+                out.append(inst("DECL-FILTER", HOLDS, fn, f"{fn.short}[builds a variable over a domain]", f"confirmed builder: {why}", line=c.lineno))
+                continue
+            # elsewhere: accepted only behind an isinstance filter by the type the variable is built for
+            amap = bind_args(var_cls.init_params(), c) if not is_super_init else {}
+            ty = unparse(amap["_type_"]) if "_type_" in amap else None
+            filtered = ty is not None and any(isinstance(x, ast.Call) and dotted(x.func) == "isinstance" and len(x.args) == 2 and unparse(x.args[1]) == ty
+                                              for x in own_nodes(fn.node))
+            out.append(inst("DECL-FILTER", HOLDS if filtered else VIOLATION, fn, f"{fn.short}[builds a variable over a domain]",
+                            f"the domain is filtered by isinstance(…, {ty}) in this function" if filtered else
+                            f"`{unparse(c)[:90]}` hands a domain to a Variable directly, without the isinstance filter the constructor of a decorated class "
+                            f"applies: the variable ranges over members of the domain that are not instances of its type "
+                            f"(let(Cat, domain=[cat, dog], name='c') yields the dog)", line=c.lineno))
+    if n < 2:
+        raise AnalysisError(f"only {n} construction(s) of a Variable over a domain found")
     return out
